@@ -70,6 +70,8 @@ struct Probe {
     histories_ok: bool,
     audit_ok: bool,
     detail: String,
+    /// verified results per user (lookup, complete history), for comparing two views of storage
+    results: Vec<String>,
 }
 
 /// observations of a directory instance: epoch hash; every user's lookup/history verify against it
@@ -81,29 +83,32 @@ async fn probe<TC: akd::configuration::Configuration>(
 ) -> Probe {
     let pk = HardCodedAkdVRF {}.get_vrf_public_key().await.unwrap();
     let eh = dir.get_epoch_hash().await.ok().map(|e| (e.0, e.1));
-    let mut p = Probe { epoch_hash: eh, lookups_ok: true, histories_ok: true, audit_ok: true, detail: String::new() };
+    let mut p = Probe { epoch_hash: eh, lookups_ok: true, histories_ok: true, audit_ok: true, detail: String::new(), results: vec![] };
     let Some((ep, root)) = eh else { return p };
     for u in users {
         match dir.lookup(u.clone()).await {
             Ok((proof, eh2)) => {
-                if eh2.0 != ep || eh2.1 != root || akd::verify::lookup_verify::<TC>(pk.as_bytes(), root, ep, u.clone(), proof).is_err() {
-                    p.lookups_ok = false;
-                    p.detail = format!("lookup of {} does not verify against ({ep},{})", hex_or_dash(&u.0), hex::encode(root));
+                match akd::verify::lookup_verify::<TC>(pk.as_bytes(), root, ep, u.clone(), proof) {
+                    Ok(r) if eh2.0 == ep && eh2.1 == root => p.results.push(format!("L {} {} {} {}", hex_or_dash(&u.0), r.epoch, r.version, hex_or_dash(&r.value.0))),
+                    _ => {
+                        p.lookups_ok = false;
+                        p.detail = format!("lookup of {} does not verify against ({ep},{})", hex_or_dash(&u.0), hex::encode(root));
+                    }
                 }
             }
-            Err(_) => {} // unpublished at this state
+            Err(_) => p.results.push(format!("L {} none", hex_or_dash(&u.0))), // unpublished at this state
         }
         match dir.key_history(u, HistoryParams::Complete).await {
             Ok((proof, eh2)) => {
-                if eh2.0 != ep
-                    || eh2.1 != root
-                    || akd::verify::key_history_verify::<TC>(pk.as_bytes(), root, ep, u.clone(), proof, HistoryVerificationParams::default()).is_err()
-                {
-                    p.histories_ok = false;
-                    p.detail = format!("history of {} does not verify against ({ep},{})", hex_or_dash(&u.0), hex::encode(root));
+                match akd::verify::key_history_verify::<TC>(pk.as_bytes(), root, ep, u.clone(), proof, HistoryVerificationParams::default()) {
+                    Ok(rs) if eh2.0 == ep && eh2.1 == root => p.results.push(format!("H {} {}", hex_or_dash(&u.0), rs.iter().map(|r| format!("({},{},{})", r.epoch, r.version, hex_or_dash(&r.value.0))).collect::<Vec<_>>().join(" "))),
+                    _ => {
+                        p.histories_ok = false;
+                        p.detail = format!("history of {} does not verify against ({ep},{})", hex_or_dash(&u.0), hex::encode(root));
+                    }
                 }
             }
-            Err(_) => {}
+            Err(_) => p.results.push(format!("H {} none", hex_or_dash(&u.0))),
         }
     }
     if ep >= 1 && roots.len() as u64 == ep + 1 {
@@ -302,6 +307,115 @@ pub fn step(ex: &mut Exec, st: &mut L1State, op: &str, toks: &[&str]) -> Option<
             ex.stats.bump(op, &format!("K{}", (k_total / 10) * 10));
             let _ = sorted;
             Some(format!("violations={violations}"))
+        }
+        "pc.enum" => {
+            // C11: every prefix and many subsets/orders of the commit's record writes (epoch record last)
+            let fx = st.fx.as_mut()?;
+            let mut ups = vec![];
+            let mut i = 1;
+            while i + 1 < toks.len() {
+                ups.push((AkdLabel(parse_hex(toks[i])?), AkdValue(parse_hex(toks[i + 1])?)));
+                i += 2;
+            }
+            if i != toks.len() {
+                return None;
+            }
+            let rt = &st.rt;
+            let cfg = fx.cfg.clone();
+            let par = fx.par;
+            let snapshot = fx.records.clone();
+            let roots = st.fx_roots.clone();
+            let mut users = fx.users.clone();
+            for (u, _) in &ups {
+                if !users.contains(u) {
+                    users.push(u.clone());
+                }
+            }
+            let thorough = st.thorough;
+            let seed = st.rng.next();
+            let out = with_cfg!(cfg.as_str(), TC => {
+                // the fault-free publish, with the commit batch captured
+                let db = rt.block_on(FaultDb::from_records(&snapshot));
+                let dir = rt.block_on(Directory::<TC, _, _>::new(make_mgr(&db, "none"), HardCodedAkdVRF {}, par)).ok()?;
+                let before = rt.block_on(probe::<TC>(&dir, &users, &roots));
+                let res = rt.block_on(dir.publish(ups.clone()));
+                let batch = db.last_commit.lock().unwrap().clone();
+                let (Ok(eh), Some(batch)) = (res, batch) else { return Some("violations=0".into()) };
+                let mut new_roots = roots.clone();
+                if new_roots.len() as u64 == eh.0 {
+                    new_roots.push(eh.1);
+                }
+                let after = rt.block_on(probe::<TC>(&dir, &users, &new_roots));
+                let node_recs: Vec<DbRecord> = batch.iter().filter(|r| !matches!(r, DbRecord::Azks(_))).cloned().collect();
+                let azks_last = matches!(batch.last(), Some(DbRecord::Azks(_)));
+                let mut violations = 0usize;
+                if !azks_last {
+                    violations += 1;
+                    ex.fail_tag("C11", "epoch-record-not-last", "the commit batch does not end with the directory's epoch record".into());
+                }
+                // the subsets to try: every prefix of the batch order, of the reversed order, and random subsets in random order
+                let n = node_recs.len();
+                let mut trials: Vec<Vec<usize>> = vec![];
+                for k in 0..=n {
+                    trials.push((0..k).collect());
+                    trials.push((n - k..n).rev().collect());
+                }
+                let mut rng = crate::rng::Rng::new(seed);
+                if n <= (if thorough { 11 } else { 7 }) {
+                    for mask in 0u32..(1 << n) {
+                        let mut idx: Vec<usize> = (0..n).filter(|i| mask >> i & 1 == 1).collect();
+                        rng.shuffle(&mut idx);
+                        trials.push(idx);
+                    }
+                } else {
+                    for _ in 0..(if thorough { 400 } else { 60 }) {
+                        let mut idx: Vec<usize> = (0..n).filter(|_| rng.chance(1, 2)).collect();
+                        rng.shuffle(&mut idx);
+                        trials.push(idx);
+                    }
+                }
+                let ntrials = trials.len();
+                for idx in trials {
+                    let pdb = rt.block_on(FaultDb::from_records(&snapshot));
+                    let w: Vec<DbRecord> = idx.iter().map(|i| node_recs[*i].clone()).collect();
+                    // value states and node records written so far; one `set` per record, in the chosen order
+                    for r in w {
+                        rt.block_on(akd::storage::Database::set(&pdb, r)).ok()?;
+                    }
+                    // a second instance opened on that storage (read-only wrapper and a full directory)
+                    let ro = rt.block_on(akd::directory::ReadOnlyDirectory::<TC, _, _>::new(make_mgr(&pdb, "none"), HardCodedAkdVRF {}, par)).ok()?;
+                    let ro_eh = rt.block_on(ro.get_epoch_hash()).ok().map(|e| (e.0, e.1));
+                    let d2 = rt.block_on(Directory::<TC, _, _>::new(make_mgr(&pdb, "none"), HardCodedAkdVRF {}, par)).ok()?;
+                    let p2 = rt.block_on(probe::<TC>(&d2, &users, &roots));
+                    let mut bad: Vec<(&str, String)> = vec![];
+                    if ro_eh != before.epoch_hash || p2.epoch_hash != before.epoch_hash {
+                        bad.push(("partial-commit-visible-epoch", format!("reports {:?} instead of the previous {:?}", p2.epoch_hash.map(|e| (e.0, hex::encode(e.1))), before.epoch_hash.map(|e| (e.0, hex::encode(e.1))))));
+                    }
+                    if !(p2.lookups_ok && p2.histories_ok && p2.audit_ok) {
+                        bad.push(("partial-commit-breaks-proofs", p2.detail.clone()));
+                    } else if p2.results != before.results {
+                        bad.push(("partial-commit-visible-values", "verified lookup / history results differ from those of the previous epoch".into()));
+                    }
+                    for (tag, what) in bad {
+                        violations += 1;
+                        ex.fail_tag("C11", tag, format!("with {} of the {} node records of the commit written (indices {:?}, epoch record not yet written): {}", idx.len(), n, idx, what));
+                    }
+                }
+                // everything written, epoch record last: the new epoch is served completely
+                let fdb = rt.block_on(FaultDb::from_records(&snapshot));
+                for r in batch.iter() {
+                    rt.block_on(akd::storage::Database::set(&fdb, r.clone())).ok()?;
+                }
+                let d3 = rt.block_on(Directory::<TC, _, _>::new(make_mgr(&fdb, "none"), HardCodedAkdVRF {}, par)).ok()?;
+                let p3 = rt.block_on(probe::<TC>(&d3, &users, &new_roots));
+                if p3.epoch_hash != Some((eh.0, eh.1)) || !(p3.lookups_ok && p3.histories_ok && p3.audit_ok) || p3.results != after.results {
+                    violations += 1;
+                    ex.fail_tag("C11", "full-commit-not-served", format!("after all records incl. the epoch record are written the new epoch is not served completely: {}", p3.detail));
+                }
+                ex.stats.bump("pc.enum", &format!("records{}-trials{}", n.min(20), (ntrials / 50) * 50));
+                Some(format!("violations={violations}"))
+            });
+            out
         }
         _ => crate::exec_pb::step(ex, st, op, toks),
     }
